@@ -14,7 +14,9 @@
 (*   - on every stream Connected precedes all other notifications (a       *)
 (*     stream starts at "attempt"); update ids increase along a stream;    *)
 (*   - after Close returned, at most the notifications of one further      *)
-(*     message reach the application.                                      *)
+(*     message reach the application;                                      *)
+(*   - a Subscribe on a client that has been closed returns (the driver    *)
+(*     logs a "hang" otherwise), after one disconnect callback.            *)
 (***************************************************************************)
 EXTENDS Naturals, Sequences, FiniteSets, TLC, Json, IOUtils
 
@@ -35,8 +37,9 @@ TReset ==
 TInv ==
     /\ St("inv")
     /\ sub' = IF Ev.op = "Subscribe" THEN "running" ELSE sub
+    /\ word' = IF Ev.op = "Subscribe" THEN "start" ELSE word      \* every Subscribe call has its own callback word
     /\ closeInv' = (closeInv \/ Ev.op = "Close")
-    /\ UNCHANGED <<word, closeRet, connected, lastId, after>>
+    /\ UNCHANGED <<closeRet, connected, lastId, after>>
 
 TRet ==
     /\ St("ret")
